@@ -3,6 +3,7 @@ mod deviate;
 mod faults;
 mod apigen;
 mod phys;
+mod layout;
 mod backend;
 mod handle;
 mod locks;
@@ -125,6 +126,18 @@ fn main() {
                 o.violations
             };
             for v in &violations {
+                println!("ORACLE {}", v);
+            }
+        }
+        "layout" => {
+            let o = phys::layouts(arg_u64(&args, "--seed", 1), arg_u64(&args, "--count", 50), arg(&args, "--outdir").unwrap(), args.iter().any(|a| a == "--big"));
+            println!("STAT histories {}", o.histories);
+            println!("STAT ops {}", o.ops);
+            println!("STAT distinct {}", o.distinct.len());
+            for (k, n) in &o.hist {
+                println!("HIST {} {}", k, n);
+            }
+            for v in &o.violations {
                 println!("ORACLE {}", v);
             }
         }
